@@ -205,4 +205,46 @@ example : powerCombinations 2 = [(0, 0), (1, 0), (0, 1), (2, 0), (1, 1), (0, 2)]
 example : gSpec 1 = -1 := by simp [gSpec]
 example : ∃ v, greens (fin 3) (fin 4) (fin 0) = fin v := ⟨_, greens_eq_spec 3 4 0 (le_refl _)⟩
 
+/-! ### Bridges: `Trend.jacobian` and `Trend.predict` regenerated from source -/
+
+/-- **Bridge.**  `Trend.jacobian` as regenerated from /repo's source text on every run (the loop `for col, (i, j) in enumerate(combinations):
+    out[:, col] = easting**i * northing**j`, the expression translated operand by operand) is the model's design matrix. -/
+theorem gen_trend_jacobian_eq_model (es ns : List Rat) (degree : Nat) :
+    Gen.trendJacobian es ns (powerCombinations degree) = trendJac es ns degree := rfl
+
+/-- The body of the accumulation loop of `Trend.predict` at one query point, as generated. -/
+def predStep (e n : Rat) (data : List Rat) (cij : Rat × Nat × Nat) : List Rat :=
+  List.zipWith (· + ·) data (List.zipWith (fun e n => (((e ^ cij.2.1) * (n ^ cij.2.2)) * cij.1)) [e] [n])
+
+theorem fold_point (e n : Rat) (l : List (Rat × Nat × Nat)) (acc : Rat) :
+    l.foldl (predStep e n) [acc] = [acc + (l.map fun cij => e ^ cij.2.1 * n ^ cij.2.2 * cij.1).sum] := by
+  induction l generalizing acc with
+  | nil => simp
+  | cons c rest ih =>
+    rw [List.foldl_cons]
+    have : predStep e n [acc] c = [acc + e ^ c.2.1 * n ^ c.2.2 * c.1] := by simp [predStep]
+    rw [this, ih]
+    simp only [List.map_cons, List.sum_cons]
+    congr 1
+    ring
+
+theorem sum_zip_eq (e n : Rat) (coef : List Rat) (combos : List (Nat × Nat)) :
+    ((coef.zip combos).map fun cij => e ^ cij.2.1 * n ^ cij.2.2 * cij.1).sum
+      = (List.zipWith (fun c (ij : Nat × Nat) => e ^ ij.1 * n ^ ij.2 * c) coef combos).sum := by
+  induction coef generalizing combos with
+  | nil => simp
+  | cons c rest ih =>
+    cases combos with
+    | nil => simp
+    | cons ij more => simp [ih]
+
+/-- **Bridge.**  `Trend.predict` as regenerated from /repo's source text on every run (`data = zeros`, the loop
+    `for coef, (i, j) in zip(self.coef_, combinations): data += easting**i * northing**j * coef`) is, at every point, the polynomial with
+    `coef_` over the documented monomial order. -/
+theorem gen_trend_predict_eq_model (coef : List Rat) (degree : Nat) (e n : Rat) :
+    Gen.trendPredict coef (powerCombinations degree) [e] [n] = [trendPredict coef degree e n] := by
+  have h : Gen.trendPredict coef (powerCombinations degree) [e] [n] = (coef.zip (powerCombinations degree)).foldl (predStep e n) [0] := rfl
+  rw [h, fold_point, zero_add, sum_zip_eq]
+  rfl
+
 end Verde.C03
